@@ -17,7 +17,7 @@ func Bind2Context[A, B, C any](scope Scope, a Incr[A], b Incr[B], fn func(contex
 		return tuple2[A, B]{av, bv}
 	})
 	bind := BindContext(scope, m, func(ctx context.Context, bs Scope, tv tuple2[A, B]) (Incr[C], error) {
-		return fn(ctx, scope, tv.A, tv.B)
+		return fn(ctx, bs, tv.A, tv.B)
 	})
 	bind.Node().SetKind(KindBind2)
 	return bind
